@@ -12,13 +12,14 @@ import mir, sym, opkernels as K, opcheck as Q
 
 
 def all_cases():
-    """(level, op, kinds).  Level 'instr' = through the interpreter instruction (dispatch + kernel); level 'fn' = the
-    by-reference operator impl directly (the route `bin_op_assign` takes for + - * / %)."""
+    """(level, op, kinds).  Level 'instr' = through the interpreter instruction `bin_op <sym>` / equ / neq / neg / not
+    (dispatch + kernel); level 'assign' = through `bin_op_assign <sym>= x` (the compound-assignment route: variable cell,
+    dispatch on "+=".."%=", by-reference operator impl, result stored back and left on the stack)."""
     cases = []
     for op in K.ARITH:
         for k1 in K.KINDS:
             for k2 in K.KINDS:
-                cases.append(("fn", op, (k1, k2)))
+                cases.append(("assign", op, (k1, k2)))
     for op in K.BINOPS + ["nequals"]:
         for k1 in K.KINDS:
             for k2 in K.KINDS:
@@ -41,7 +42,12 @@ def run_profile(scratch, nat, release, prop, tier, qs, info):
     t = time.time()
     summaries = []
     for level, op, kinds in all_cases():
-        summaries.append(ker.summarize_instr(op, list(kinds)) if level == "instr" else ker.summarize(op, list(kinds)))
+        if level == "instr":
+            summaries.append(ker.summarize_instr(op, list(kinds)))
+        elif level == "assign":
+            summaries.append(ker.summarize_assign(op, list(kinds)))
+        else:
+            summaries.append(ker.summarize(op, list(kinds)))
     info["summaries_s"][profile] = round(time.time() - t, 2)
     info["paths"][profile] = sum(len(s.paths) for s in summaries)
     info["executor"][profile] = {k: v for k, v in ker.ex.stats.items() if k != "inlined"}
